@@ -216,7 +216,7 @@ def proto_events(ops, tr):
             continue
         if ops[i][0] == "s" or ops[i][0] == "n":
             lines.append("P 1")
-        elif ops[i][0] == "c":
+        elif ops[i][0] in "cq":          # q: iwkv_close ends with _onclosing -> _checkpoint_exl(wal, 0, false)
             lines.append("K")
     return lines
 
